@@ -837,6 +837,7 @@ def run_history(hist, mode, with_model=True, check_every=True):
     finally:
         tr.active = False
         tr.uninstall()
+        res["flags"] = sorted(tr.flags)
     return res
 
 
@@ -930,7 +931,7 @@ def run_property(ctx, mode):
     if not standard_proof_steps(ctx):
         return
     rng = ctx.rng
-    nh = ctx.n(300, 5000)
+    nh = ctx.n(160, 4000)
     hists = load_corpus(mode)
     ncorpus = len(hists)
     for _ in range(nh):
@@ -940,7 +941,7 @@ def run_property(ctx, mode):
     with multiprocessing.Pool(min(16, os.cpu_count() or 4)) as pool:
         results = pool.map(worker, [(h, mode, tlimit) for h in hists], chunksize=1)
     ctx.log("ran %d histories (%d corpus) in %.1fs" % (len(hists), ncorpus, time.time() - t0))
-    cases, caserec = [], []
+    cases, caserec, inv_cases, inv_rec = [], [], [], []
     for hi, r in enumerate(results):
         h = r["hist"]
         for f, k in r["feats"].items():
@@ -968,6 +969,11 @@ def run_property(ctx, mode):
             rhs = "Some (canon_state %s)" % s["post"]
             cases.append(("h%d.s%d.%s" % (hi, s["step"], s["kind"]), lhs, rhs))
             caserec.append((h, s))
+            netl = gen.net_lit([tuple(t) for t in h["inputs"]], tuple(h["output"]), h["size_dict"])
+            inv_cases.append(("h%d.s%d.%s.inv" % (hi, s["step"], s["kind"]),
+                              "%s %s %s" % ("cost_inv_b" if mode == "C04" else "recipe_inv_b", netl, s["post"]),
+                              "true"))
+            inv_rec.append((h, s, r.get("flags", [])))
             ctx.count("trace_events", s["nev"])
     t0 = time.time()
     failing = ctx.coq_cases(mode.lower() + "_trace", ["TreeState"], cases, chunk=max(20, len(cases) // 48 + 1),
@@ -981,6 +987,26 @@ def run_property(ctx, mode):
                   "pre": s.get("pre"), "post_observed": s.get("post"), "model_value": val,
                   "correspondence": "primitive trace replayed by Model/TreeState.v mrun vs observed tree state"},
                  found_input=False)
+    # the verified checkers, evaluated inside Coq on every state the real tree reached
+    t0 = time.time()
+    failing = ctx.coq_cases(mode.lower() + "_inv", ["TreeState"], inv_cases,
+                            chunk=max(20, len(inv_cases) // 48 + 1), timeout=900)
+    ctx.log("invariant checkers on %d observed states in %.1fs, %d failing" % (len(inv_cases), time.time() - t0, len(failing)))
+    shown = 0
+    for idx, label, val in failing:
+        h, s, flags = inv_rec[idx] if idx < len(inv_rec) else ({}, {}, [])
+        # C04: a state reached after the trigger of the known finding (root size without legs at
+        # remove_ind of an output index) is attributed to it; everything else is reported
+        key = "anneal_remove_output_ind" if mode == "C04" and "anneal_remove_output_ind" in flags else None
+        if key is None:
+            shown += 1
+            if shown > 5:
+                continue
+        ctx.fail("an observed state violates the invariant %s" % ("cost_inv_b" if mode == "C04" else "recipe_inv_b"),
+                 {"label": label, "history": {k: h.get(k) for k in ("inputs", "output", "size_dict", "path", "ops", "aseed", "probe")},
+                  "step": s.get("step"), "op": s.get("kind"), "state": s.get("post"), "checkers": val,
+                  "correspondence": "checker cost_inv_b (C04, soundness proved) / predicate recipe_inv_b (C02) of Model/TreeState.v on the observed state"},
+                 key=key, found_input=False)
     ctx.coverage["rule"] = (
         "random networks (3..6/7 tensors; hyper, repeated, scalar, disconnected, size-1, shared-output features), "
         "uniform random initial paths, random histories of 3..10 operations over {subtree_reconfigure(_forest), "
